@@ -1,4 +1,6 @@
 // C01: generated basis functions are exactly the Cox-de Boor B-splines.
+#include <cmath>
+
 #include "lib.h"
 using namespace vf;
 using S = vf::DefaultScalar;
@@ -117,7 +119,90 @@ static void one(Harness &H, const Knots &K) {
   H.end();
 }
 
+// ---- floating-point route: strongly graded (but well conditioned) knot vectors ----------------------------
+// "every scalar type": the exact run above cannot see defects that only exist for floating types (tolerances,
+// epsilon-based comparisons). Knots are partial sums of non-decreasing dyadic widths starting at 0, so every
+// knot is of the size of the neighbouring widths and the midpoint coefficients are computed without cancellation;
+// every generated coefficient must agree with the exact one to a relative 2^-20 (float 2^-10) of the largest
+// coefficient magnitude of that degree on the interval.
+template <class FT, size_t p>
+static void float_case(Harness &H, const char *tn, const std::vector<mpq_class> &g, const std::vector<size_t> &mult, const std::string &d0, double reltol) {
+  std::vector<mpq_class> t;
+  for (size_t i = 0; i < g.size(); i++)
+    for (size_t r = 0; r < mult[i]; r++) t.push_back(g[i]);
+  if (t.size() < p + 2) return;
+  if (!H.take()) return;
+  H.begin(std::string(tn) + ";p=" + std::to_string(p) + ";" + d0);
+  std::vector<Spline<FT, p>> bs, bs2;
+  Outcome oc = attempt([&] {
+    bs = bspline::generateBSplines<p>(to_s<FT>(t));
+    bspline::BSplineGenerator<FT> gen(to_s<FT>(t), mkgrid<FT>(g));
+    bs2 = gen.template generateBSplines<p>();
+  });
+  if (oc.threw()) { H.fail("float:threw", "valid graded knot vector refused: " + oc.str()); H.end(); return; }
+  if (bs.size() != t.size() - p - 1 || bs2.size() != bs.size()) { H.fail("float:count", "wrong number of functions"); H.end(); return; }
+  for (size_t i = 0; i < bs.size(); i++) {
+    RefPP ex = ref_bspline(t, g, i, p);
+    const auto &sup = bs[i].getSupport();
+    if (!(bs[i] == bs2[i])) H.fail("float:route-differs", "construction routes differ");
+    for (size_t j = 0; j + 1 < g.size(); j++) {
+      auto ec = pabout(ex.get(j), (g[j] + g[j + 1]) / 2, p + 1);
+      bool stored = j >= sup.getStartIndex() && j + 1 < sup.getEndIndex();
+      for (size_t k = 0; k <= p; k++) {
+        double e = ec[k].get_d(), f = stored ? (double)bs[i].getCoefficients()[j - sup.getStartIndex()][k] : 0.0;
+        // scale: largest exact coefficient of this degree over all functions on this interval is of order width^-k
+        double scale = 1.0;
+        mpq_class w = g[j + 1] - g[j];
+        for (size_t q = 0; q < k; q++) scale /= w.get_d();
+        if (!(std::fabs(f - e) <= reltol * scale * 64)) {
+          H.fail("float:coefficient", "B_{" + std::to_string(i) + "," + std::to_string(p) + "} interval " + std::to_string(j) + " degree " + std::to_string(k) + ": got " + std::to_string(f) + " exact " + std::to_string(e) + " (scale " + std::to_string(scale) + ")");
+          j = g.size();
+          break;
+        }
+      }
+    }
+  }
+  H.cls(std::string("float:") + tn);
+  H.nontriv();
+  H.end();
+}
+template <class FT>
+static void float_route(Harness &H, const char *tn, const std::vector<mpq_class> &widths, double reltol) {
+  // all non-decreasing width sequences of length 1..4 over the alphabet, multiplicity patterns: simple / one double knot
+  size_t W = widths.size();
+  for (size_t len = 1; len <= 4; len++) {
+    std::vector<size_t> ix(len, 0);
+    while (true) {
+      bool nondecr = true;
+      for (size_t i = 0; i + 1 < len; i++) nondecr = nondecr && ix[i] <= ix[i + 1];
+      if (nondecr) {
+        std::vector<mpq_class> g{mpq_class(0)};
+        std::string d0 = "widths=";
+        for (size_t i : ix) { g.push_back(g.back() + widths[i]); d0 += widths[i].get_str() + ","; }
+        for (size_t dbl = 0; dbl <= g.size(); dbl++) {  // dbl == g.size(): all simple
+          std::vector<size_t> mult(g.size(), 1);
+          if (dbl < g.size()) mult[dbl] = 2;
+          std::string d1 = d0 + ";double-knot=" + (dbl < g.size() ? std::to_string(dbl) : "none");
+          float_case<FT, 0>(H, tn, g, mult, d1, reltol);
+          float_case<FT, 1>(H, tn, g, mult, d1, reltol);
+          float_case<FT, 2>(H, tn, g, mult, d1, reltol);
+          float_case<FT, 3>(H, tn, g, mult, d1, reltol);
+        }
+      }
+      size_t k = 0;
+      while (k < len && ++ix[k] == W) ix[k++] = 0;
+      if (k == len) break;
+    }
+  }
+}
+
 static void run(Harness &H) {
+  {
+    auto p2 = [](long e) { mpq_class r(1); for (long i = 0; i < (e < 0 ? -e : e); i++) r *= 2; return e < 0 ? mpq_class(1 / r) : r; };
+    float_route<double>(H, "double", {p2(-60), p2(-40), p2(-20), p2(0), p2(10)}, 1.0 / 1048576);
+    float_route<float>(H, "float", {p2(-30), p2(-15), p2(0), p2(6)}, 1.0 / 1024);
+    float_route<long double>(H, "long double", {p2(-70), p2(-35), p2(0)}, 1.0 / 1048576);
+  }
   // reference self-check: reference B-splines of a simple knot vector sum to one
   {
     std::vector<mpq_class> t = {mq(0), mq(1), mq(3), mq(4), mq(6), mq(7), mq(9)};
